@@ -511,3 +511,47 @@ Proof.
   intros Hs. unfold DeriveGrid1D_all_false_repaired, grid_1d_slim_via_shape_slim_from, DeriveMask1D_all_false, Mask1D_all_false, Mask1D_new.
   cbn [fst snd]. rewrite grid1_mask_centres by assumption. rewrite full1_length, Nat2Z.id, unmasked1_full1_false. reflexivity.
 Qed.
+
+(* ------------------------------------------------------------------ Grid1D.uniform_from_zero (sibling constructor; hand model in Model/C02x.v) *)
+Lemma fold_min_head (l : list R) (h : R) : (forall x, In x l -> h <= x) ->
+  fold_left (fun a b => if ltb ROps b a then b else a) l h = h.
+Proof.
+  induction l as [|a l IH]; intros H; cbn [fold_left]; [reflexivity|].
+  assert (Ha : h <= a) by (apply H; now left).
+  destruct (ltb ROps a h) eqn:E.
+  - cbn [ltb ROps] in E. apply Rltb_true in E. lra.
+  - apply IH. intros x Hx. apply H. now right.
+Qed.
+Lemma centre1_increasing n s j k : 0 < s -> (j <= k)%Z -> @centre1_spec ROps n s 0 j <= @centre1_spec ROps n s 0 k.
+Proof.
+  intros Hs Hjk. unfold centre1_spec, cx_spec. rsimp. apply IZR_le in Hjk. nra.
+Qed.
+Lemma uniform_from_zero_obj n s : (0 <= n)%Z -> 0 < s ->
+  @Grid1D_uniform_from_zero ROps n s = (map (fun k => IZR k * s) (seqZ n), (full1 false n, s, 0)).
+Proof.
+  intros Hn Hs. assert (Hs0 : s <> 0) by lra.
+  unfold Grid1D_uniform_from_zero, Grid1D_no_mask, grid_1d_slim_via_shape_slim_from, Mask1D_all_false, Mask1D_new. cbv zeta.
+  change (@zero ROps) with 0. 
+  rewrite grid1_mask_centres by assumption. rewrite full1_length, Z2Nat.id by assumption. rewrite unmasked1_full1_false.
+  rewrite !map_length, seqZ_length, Z2Nat.id by assumption.
+  f_equal. rewrite map_map.
+  assert (Hmin : @list_min ROps (map (@centre1_spec ROps n s 0) (seqZ n)) = @centre1_spec ROps n s 0 0%Z \/ seqZ n = []).
+  { destruct (seqZ n) as [|z l] eqn:E; [now right|left].
+    assert (Hz : z = 0%Z). { unfold seqZ in E. destruct (Z.to_nat n); cbn in E; [discriminate|]. now inversion E. }
+    subst z. unfold list_min. cbn [map hd]. apply fold_min_head.
+    intros x [<- | Hx]; [apply Rle_refl|]. apply in_map_iff in Hx. destruct Hx as (k & <- & Hk).
+    apply centre1_increasing; [assumption|].
+    assert (Hk' : In k (seqZ n)) by (rewrite E; now right). apply seqZ_nonneg in Hk'. lia. }
+  destruct Hmin as [Hmin | Hnil]; [| rewrite Hnil; reflexivity].
+  apply map_ext. intros k. rewrite Hmin. unfold centre1_spec, cx_spec. rsimp. field.
+Qed.
+(* entry k of Grid1D.uniform_from_zero is k pixel scales from zero, on the all-false mask with origin 0 *)
+Lemma uniform_from_zero_nth n s k : (0 <= k < n)%Z -> 0 < s ->
+  nth (Z.to_nat k) (fst (@Grid1D_uniform_from_zero ROps n s)) 0 = IZR k * s /\
+  snd (@Grid1D_uniform_from_zero ROps n s) = (full1 false n, s, 0).
+Proof.
+  intros Hk Hs. rewrite uniform_from_zero_obj by (lia || assumption). cbn [fst snd]. split; [|reflexivity].
+  set (f := fun k : Z => IZR k * s).
+  rewrite nth_indep with (d' := f 0%Z) by (rewrite map_length, seqZ_length; lia).
+  rewrite map_nth. rewrite seqZ_nth by lia. subst f. cbv beta. now rewrite Z2Nat.id by lia.
+Qed.
